@@ -49,6 +49,9 @@ type Config struct {
 	// the first restart is the deployment that adds it, so sessions exist
 	// that were established without an activity stamp
 	ExpireLate bool `json:"expire_late,omitempty"`
+	// SlowMail (C17 only): the goroutine the library starts to send a mail may
+	// still be on its way while up to three later requests are served
+	SlowMail bool `json:"slow_mail,omitempty"`
 	// AppLoadsUser: an application middleware in front of the authboss routes
 	// loads the current user into the request context (as the sample
 	// application's data injector does)
